@@ -308,7 +308,8 @@ PROPS["C18"] = dict(
                   dict(pkg="./storage", entry="VerifC18Catalogue", bounds="preempt=0,burst=12,det=1", unwind=400, no_native=True, reach=["drivers-returned", "end"]),
                   # restart with existing datasets and joins during creates/deletes on real Servers over the REAL etcd/raft
                   dict(pkg=".", entry="VerifC14Raft", bounds="members=2", unwind=4000, no_native=True, reach=["settled", "restarted", "end"])],
-        "thorough": [dict(pkg="./storage", entry="VerifC18", bounds="preempt=3,race=1", reach=["drivers-returned", "end"]),
+        # (preempt=3,race=1 did not finish within 5400 s when the thorough tier was validated end to end: not registered)
+        "thorough": [dict(pkg="./storage", entry="VerifC18", bounds="preempt=1,race=1", reach=["drivers-returned", "end"]),
                      dict(pkg="./storage", entry="VerifC18", bounds="preempt=2,replicaless=1,race=1", reach=["drivers-returned", "end"]),
                      dict(pkg="./storage", entry="VerifC18Catalogue", bounds="preempt=0", unwind=400, no_native=True, reach=["drivers-returned", "end"]),
                      dict(pkg="./storage", entry="VerifC18Catalogue", bounds="preempt=0,burst=14,det=1", unwind=400, no_native=True, reach=["drivers-returned", "end"]),
